@@ -41,6 +41,9 @@ func encodeBody(enc string, raw []byte) []byte {
 		_ = w.Close()
 		return b.Bytes()
 	case "lz4":
+		if len(raw) == 0 {
+			return nil // a block codec has nothing to emit for an empty body
+		}
 		buf := make([]byte, lz4.CompressBlockBound(len(raw))+16)
 		n, err := lz4.CompressBlock(raw, buf, nil)
 		if err != nil || n == 0 {
@@ -222,6 +225,7 @@ func (t *Task) getUp() *UpCall { return t.up }
 // simulated store + disk
 
 type StoreCall struct {
+	URL  string
 	Op   string
 	Key  string
 	Data []byte
@@ -308,6 +312,7 @@ func (s *simStore) call(c *StoreCall) {
 	if t == nil || e.plan.InlineStore || t.inAtomic() {
 		// outside the schedule (set-up, restart, atomic section): fault free, inline
 		e.applyStore(c, "", -1)
+		e.recordInlineStore(t, c)
 		return
 	}
 	t.setStore(c)
@@ -315,19 +320,19 @@ func (s *simStore) call(c *StoreCall) {
 }
 
 func (s *simStore) Get(key []byte) ([]byte, error) {
-	c := &StoreCall{Op: "get", Key: string(key)}
+	c := &StoreCall{URL: s.url, Op: "get", Key: string(key)}
 	s.call(c)
 	return c.out, c.err
 }
 
 func (s *simStore) Set(key []byte, data []byte, ttl time.Duration) error {
-	c := &StoreCall{Op: "set", Key: string(key), Data: append([]byte(nil), data...), TTL: ttl}
+	c := &StoreCall{URL: s.url, Op: "set", Key: string(key), Data: append([]byte(nil), data...), TTL: ttl}
 	s.call(c)
 	return c.err
 }
 
 func (s *simStore) Delete(key []byte) error {
-	c := &StoreCall{Op: "delete", Key: string(key)}
+	c := &StoreCall{URL: s.url, Op: "delete", Key: string(key)}
 	s.call(c)
 	return c.err
 }
